@@ -379,8 +379,13 @@ public:
 
     static Interval recip(const Interval& a)
     {
-        // The numerator can't be 0, so a denominator of 0 won't produce NaN
-        return Interval(1.0f / a.i, a.maybe_nan);
+        // The numerator can't be 0, so a denominator of 0 won't produce NaN,
+        // but it produces an infinity of either sign (1 / +0 vs 1 / -0), so
+        // we use the same conservative bounds as operator/
+        auto i = (a.lower() <= 0.0f && a.upper() >= 0.0f)
+            ? I(-INFINITY, INFINITY)
+            : (1.0f / a.i);
+        return Interval(i, a.maybe_nan);
     }
 
 protected:
